@@ -853,6 +853,9 @@ void matrixSslDeleteSession(ssl_t *ssl)
     {
         matrixUpdateSession(ssl);
     }
+# ifdef USE_OCSP_RESPONSE
+    psFree(ssl->OCSPResponseBuf, ssl->sPool);
+# endif
 # ifdef USE_STATELESS_SESSION_TICKETS
     if ((ssl->flags & SSL_FLAGS_SERVER) && ssl->sid)
     {
@@ -1512,6 +1515,51 @@ int32 matrixUpdateSession(ssl_t *ssl)
     return PS_SUCCESS;
 }
 
+#  ifdef USE_OCSP_RESPONSE
+/* keys->OCSPResponseBuf is replaced at run time (matrixSslLoadOCSPResponse)
+   while handshakes of other threads staple it.  Both sides go through these
+   two functions, under a lock (the session table lock: every server has it).
+   A handshake takes its own copy, once: the status_request extension, the
+   flight size and the CertificateStatus message - and retransmissions of it -
+   then all use the same response, which nobody frees under them. */
+void matrixSwapOCSPResponse(sslKeys_t *keys, unsigned char **buf, psSize_t *len)
+{
+    unsigned char *oldBuf;
+    psSize_t oldLen;
+
+    psLockMutex(&g_sessionTableLock);
+    oldBuf = keys->OCSPResponseBuf;
+    oldLen = keys->OCSPResponseBufLen;
+    keys->OCSPResponseBuf = *buf;
+    keys->OCSPResponseBufLen = *len;
+    psUnlockMutex(&g_sessionTableLock);
+    *buf = oldBuf;
+    *len = oldLen;
+}
+
+int32 matrixCopyOCSPResponse(ssl_t *ssl)
+{
+    int32 rc = PS_FAILURE;
+
+    if (ssl->OCSPResponseBuf != NULL)
+    {
+        return PS_SUCCESS;
+    }
+    psLockMutex(&g_sessionTableLock);
+    if (ssl->keys != NULL && ssl->keys->OCSPResponseBuf != NULL &&
+        ssl->keys->OCSPResponseBufLen > 0 &&
+        (ssl->OCSPResponseBuf = psMalloc(ssl->sPool,
+             ssl->keys->OCSPResponseBufLen)) != NULL)
+    {
+        ssl->OCSPResponseBufLen = ssl->keys->OCSPResponseBufLen;
+        Memcpy(ssl->OCSPResponseBuf, ssl->keys->OCSPResponseBuf,
+            ssl->OCSPResponseBufLen);
+        rc = PS_SUCCESS;
+    }
+    psUnlockMutex(&g_sessionTableLock);
+    return rc;
+}
+#  endif /* USE_OCSP_RESPONSE */
 
 #  ifdef USE_STATELESS_SESSION_TICKETS
 /* This implementation supports AES-128/256_CBC and HMAC-SHA1/256 */
